@@ -92,6 +92,21 @@ def execute(case):
     from tangelo.linq import Circuit, stack as stack_fn
     from tangelo.linq import circuit as cmod
     from tangelo.linq.helpers.circuits.clifford_circuits import decompose_gate_to_cliffords
+    global M
+    m_saved = M
+    M = int(case.get("M", 8))
+    try:
+        job = _execute(case)
+        job["M"] = M
+        return job
+    finally:
+        M = m_saved
+
+
+def _execute(case):
+    from tangelo.linq import Circuit, stack as stack_fn
+    from tangelo.linq import circuit as cmod
+    from tangelo.linq.helpers.circuits.clifford_circuits import decompose_gate_to_cliffords
     kind = case["kind"]
     if kind == "add":
         a0, b0 = build(case["a"], case.get("fixedNa", 0)), build(case["b"], case.get("fixedNb", 0))
@@ -213,8 +228,8 @@ def sset(xs):
 
 
 def gen_cfg(qs, maxlen, n0, nr, nc, ncr, n2, rot, ph, maxctrl=1, var="VarNo", mode="free", export=True, inv=S_INV,
-            export_inv="ExportAll"):
-    s = "CONSTANTS M = %d\nQs = {%s}\nMaxLen = %d\n" % (M, ", ".join(str(q) for q in qs), maxlen)
+            export_inv="ExportAll", m=8, outer_max_q=3):
+    s = "CONSTANTS M = %d\nQs = {%s}\nMaxLen = %d\nOuterMaxQ = %d\n" % (m, ", ".join(str(q) for q in qs), maxlen, outer_max_q)
     s += "Names0 = %s\nNamesR = %s\nNamesC = %s\nNamesCR = %s\nNames2 = %s\n" % (sset(n0), sset(nr), sset(nc), sset(ncr), sset(n2))
     s += "RotK <- %s\nPhaseK <- %s\nMaxCtrl = %d\nVarSet <- %s\nMode = \"%s\"\nExport = %s\n" % (
         rot, ph, maxctrl, var, mode, "TRUE" if export else "FALSE")
@@ -230,7 +245,18 @@ def plan_runs(chk):
     runs = []
 
     def add(name, cfg, meta, **kw):
+        meta.setdefault("M", 8)
         runs.append((name, dict(module="C09Transform", cfg=cfg, name="c09/" + name, timeout=7200, heap="3g", **kw), meta))
+    # interleaving patterns (sandwiches g1 ; p* ; m ; g'), generic angles on the 2pi/16 grid: every combination of outer gate,
+    # interleaved gate (controlled with the outer qubit as control or target, 2 controls, SWAP, XX, subset one-qubit gate) and
+    # related closing gate, with and without differing previous gates on the other qubits of m
+    add("sw2", gen_cfg([0, 1], 4, ["H"], ALLR, ["CNOT", "CZ"], ["CRX", "CRZ"], ["PHASE", "CPHASE", "SWAP", "XX"], "RotKGen", "PhaseKGen",
+                       mode="sandwich", inv=["SandwichOK", "SandwichBlocks"], export_inv="ExportSandwich", m=16),
+        dict(qs=[0, 1], role="sandwich", M=16), workers=6)
+    add("sw3", gen_cfg([0, 1, 2], 5, ["H"], ["RX"] if q else ["RX", "RY"], ["CNOT"], ["CRX"], ["CSWAP"], "RotKGen", "PhaseKGen", maxctrl=2,
+                       mode="sandwich", inv=["SandwichBlocks"] if q else ["SandwichOK", "SandwichBlocks"], export_inv="ExportSandwich",
+                       m=8 if q else 16, outer_max_q=1 if q else 2),
+        dict(qs=[0, 1, 2], role="sandwich", M=8 if q else 16), workers=6 if q else 8)
 
     # alphabet for Gate.__eq__ (all ordered pairs) and the Clifford decomposition (every multiple of pi/2 in -2pi..4pi)
     add("alpha1", gen_cfg([1], 1, ALL0, ALLR, [], [], ["PHASE"], "RotKFull", "PhaseKFull", inv=["AlphabetOK", "UnitaryOK", "InverseExact"]),
@@ -474,9 +500,22 @@ def run(chk):
             qs = meta["qs"]
             others = [lst[rng.randrange(len(lst))][0] for _ in range(3)]
             fixed_opts = [0, 0, max(qs) + 1, max(qs) + 2, max(qs) + 3]
+            if role == "sandwich":
+                # every sandwich goes through the three passes that track the last gate per qubit (function forms);
+                # a seeded subset additionally through the method forms and the rest of the family
+                base = {"in": gs, "fixedN": rng.choice(fixed_opts), "M": meta["M"]}
+                new = [dict(base, kind="merge", form="fn"), dict(base, kind="redundant", form="fn", rq=False),
+                       dict(base, kind="simplify", form="fn", rq=False)]
+                if i in full_idx:
+                    new += [dict(base, **f) for f in SIMP_MORE] + [dict(base, kind="inverse")]
+                cases += new
+                continue
             if role != "sim" and quick and i not in full_idx and len(gs) == 3 and i % 4:
                 continue          # thin the length-3 BFS corpus in the quick tier
-            cases += cases_for(gs, qs, rng, others, i in full_idx, fixed_opts)
+            new = cases_for(gs, qs, rng, others, i in full_idx, fixed_opts)
+            for c in new:
+                c["M"] = meta["M"]
+            cases += new
     al = sorted(alphabet.values(), key=lambda g: json.dumps(g, sort_keys=True))
     # variational twins and a 3-qubit placement so that flags / extra controls are part of the == pairs
     extra = [dict(g, v=True) for g in al if g["name"] in PARAM_GATES][::5]
@@ -517,8 +556,22 @@ def run(chk):
     # ---- judge --------------------------------------------------------------------------------------------------
     alljobs = jobs + [c for _, c in ctl]
     random.Random(chk.seed + 1).shuffle(alljobs)       # balance the chunks (3/4-qubit records are the expensive ones)
-    verdicts, results = tlc.judge("C09Trace", alljobs, "c09/v", {"M": M}, max_parallel=PAR, timeout=7200, heap="3g",
-                                  chunk=min(4000, max(1, (len(alljobs) + PAR - 1) // PAR)))
+    verdicts, results = {}, []
+    groups = {}
+    for j in alljobs:                                   # one batch per angle grid (the ring constant M of the judge)
+        groups.setdefault(j.get("M", 8), []).append(j)
+
+    def judge_group(mm):
+        sub = groups[mm]
+        wsum = sum(len(g) * (m2 // 8) ** 2 for m2, g in groups.items())          # ring products cost ~ M^2
+        par = max(2, min(PAR, PAR * len(sub) * (mm // 8) ** 2 // wsum + 1))
+        return tlc.judge("C09Trace", sub, "c09/v%d" % mm, {"M": mm}, max_parallel=par, timeout=7200, heap="3g",
+                         chunk=min(4000, max(1, (len(sub) + par - 1) // par)))
+    import concurrent.futures as cf
+    with cf.ThreadPoolExecutor(max_workers=len(groups)) as ex:
+        for v, r in ex.map(judge_group, sorted(groups)):
+            verdicts.update(v)
+            results += r
     for r in results:
         chk.add_tlc(r)
     stats = {}
@@ -601,7 +654,7 @@ def replay(chk, rec):
         print("valid call raised:", e)
         return clause not in (None, "exception")
     job["id"] = 1
-    verdicts, _ = tlc.judge("C09Trace", [job], "c09/replay", {"M": M})
+    verdicts, _ = tlc.judge("C09Trace", [job], "c09/replay", {"M": job["M"]})
     clauses = json.loads(verdicts[1])
     print("case:", json.dumps(case)[:1500])
     print("recorded job:", json.dumps({k: v for k, v in job.items() if k != "id"})[:2500])
